@@ -144,12 +144,12 @@ func init() {
 	register(rulePanicExec)
 	addProp(&PropSpec{
 		ID:          "C05",
-		Rules:       []string{"R-PANIC-EXEC", "R-EXH", "R-ERRSITES", "R-ERRCLASS", "R-INPUT-RO", "R-BCE-EXEC", "R-LISTINDEX"},
+		Rules:       []string{"R-PANIC-EXEC", "R-EXH", "R-ERRSITES", "R-ERRCLASS", "R-INPUT-RO", "R-BCE-EXEC", "R-LISTINDEX", "R-FINITE", "R-DIV"},
 		Explanation: "Totality and error classification of execution as shapes of the code. Every explicit panic site and every ErrInvalid construction reachable from the entry points is shown infeasible by an abstract interpretation whose universes are derived from the repository: node shapes per operand slot from the goyacc grammar's actions, enum constants, the 13 documented item types, the 5 datetime types; call sites are expanded three levels up and callbacks stay paired with their call site. Every error that can reach an entry point wraps ErrExecution or is NULL (Exists/Match only).",
 		Decided: []string{"R-PANIC-EXEC: no feasible explicit panic / Must* / unchecked assertion below the entry points", "R-BCE-EXEC: every index/slice operation of package exec is proven in bounds by the compiler or by one of three structural arguments (length-tested constant index, loop between bounds the callee clamps on every successful return, stringer name longer than the slice offset)", "R-LISTINDEX: constant-index reads of item sequences are length-tested", "R-INPUT-RO: no write into caller-owned containers, and no caller-owned container is adopted as the backing store of a result list",
 			"R-EXH: no feasible ErrInvalid construction for parser-produced paths and documented item types",
 			"R-ERRSITES + R-ERRCLASS: every constructed error wraps an exec sentinel; no foreign or bare error reaches an entry point; NULL only from Exists/Match"},
-		NotDecided:  []string{"implicit panics (nil dereference, index out of range) in general", "purity of the queried value beyond what C19's write census shows", "finiteness of returned numbers (C13/C16)"},
+		NotDecided:  []string{"implicit panics other than index/slice bounds in package exec (nil dereference, integer division in the standard library, bounds inside the standard library)", "purity of the queried value beyond what C19's write census shows", "finiteness of numbers that are copied from the document (assumed finite JSON numbers)"},
 		Assumptions: []string{"item values have one of the 13 documented dynamic types", "a json.Number holds a syntactically valid JSON number", "ast.LinkNodes chains nodes[i].next = nodes[i+1] (its documented contract)", "values of enum types are declared constants"},
 		Trusted:     append(append([]string{}, baseTrusted...), "goyacc (x/tools v0.29.0) reproduces the rule numbering of the compiled grammar.go"),
 	})
